@@ -185,13 +185,19 @@ pub fn builder_ids(name: &str, state: u32, next_id: u32, implicit: bool) -> Stri
     o.append("""
 /// the same implicit type request twice, on a module that already holds a type and a constant: ids and declaration counts
 pub fn builder_type_twice(name: &str) -> String {
+    builder_type_twice_mode(name, false)
+}
+
+/// `explicit`: the second request carries explicit ids (it must then append a declaration with that id even though an identical
+/// declaration exists)
+pub fn builder_type_twice_mode(name: &str, explicit: bool) -> String {
     let mut b = setup(0);
     let t = b.type_int(32, 0);
     b.constant_bit32(t, 7);
     let n0 = b.module_ref().types_global_values.len();
     let r1 = match call_method_implicit(&mut b, name) { Some(r) => r, None => return "{\\"error\\": \\"unknown or skipped method\\"}".to_string() };
     let n1 = b.module_ref().types_global_values.len();
-    let r2 = call_method_implicit(&mut b, name).unwrap_or_default();
+    let r2 = if explicit { call_method(&mut b, name).unwrap_or_default() } else { call_method_implicit(&mut b, name).unwrap_or_default() };
     let n2 = b.module_ref().types_global_values.len();
     format!("{{\\"first\\": {}, \\"second\\": {}, \\"n0\\": {}, \\"n1\\": {}, \\"n2\\": {}}}", crate::ops::jstr(&r1), crate::ops::jstr(&r2), n0, n1, n2)
 }
